@@ -52,6 +52,12 @@ struct PairsRun {
         size_t pi = (size_t) op.arg(0) % NP, gi = (size_t) op.arg(1) % NP; env.lib_calls++;
         // neighbours must survive: what prepare writes is its own entry and nothing else
         std::vector<uint8_t> before(preptab.p, preptab.p + preptab.n);
+        // the destination held a table before; when it is prepared again from the very point it was prepared from, the caller may meanwhile have used
+        // part of the (20 KiB) object as scratch: whatever is there, prepare writes the whole table
+        if (prep_set[pi] && memcmp(prep_src[pi].p, g2[gi].p, g2[gi].n) == 0 && (op.arg(0) + op.arg(1) + (int64_t) env.step) % 2 == 0) {
+            size_t from = prep_sz / 3 + ((size_t) env.step * 131) % (prep_sz / 3); memset(prep[pi] + from, 0x5A, prep_sz - from - 16 > 0 ? (prep_sz - from) / 2 : 0);
+            before.assign(preptab.p, preptab.p + preptab.n); env.count("fault:prepared_object_partly_overwritten_before_re_prepare_from_the_same_point");
+        }
         R.jv_g2prepared_prepare(view, prep[pi], g2[gi]); memcpy(prep_src[pi].p, g2[gi].p, g2[gi].n);
         for (size_t off = 0; off < preptab.n; off++) if ((off < pi * prep_sz || off >= (pi + 1) * prep_sz) && preptab.p[off] != before[off])
             env.fail("C08", "prepare:writes-only-its-own-object", strf("g2prepared_prepare on table entry %zu (a %zu-byte object as this caller declares it) changed byte %zu of %s", pi, prep_sz, off, off >= NP * prep_sz ? "the memory behind the table" : strf("entry %zu", off / prep_sz).c_str()));
